@@ -635,6 +635,12 @@ class MQTTProtocol(MQTTBaseProtocol):
         for _, request in self.factory.windowPublish[self.addr].items():
             if request.alarm is None:
                 self._retryPublish(request, dup=True)
+        for _, request in self.factory.windowSubscribe[self.addr].items():
+            if request.alarm is None:
+                self._retrySubscribe(request, dup=True)
+        for _, request in self.factory.windowUnsubscribe[self.addr].items():
+            if request.alarm is None:
+                self._retryUnsubscribe(request, dup=True)
 
     # --------------------------------------------------------------------------
 
@@ -643,6 +649,16 @@ class MQTTProtocol(MQTTBaseProtocol):
         Purges the persistent state in the client 
         '''
         #log.debug("{event}", event="Clean Persistent Session")
+        for k in list(self.factory.windowSubscribe[self.addr]):
+            request = self.factory.windowSubscribe[self.addr][k]
+            del self.factory.windowSubscribe[self.addr][k]
+            request.deferred.errback(reason)
+
+        for k in list(self.factory.windowUnsubscribe[self.addr]):
+            request = self.factory.windowUnsubscribe[self.addr][k]
+            del self.factory.windowUnsubscribe[self.addr][k]
+            request.deferred.errback(reason)
+
         for k in list(self.factory.windowPublish[self.addr]):
             request = self.factory.windowPublish[self.addr][k]
             del self.factory.windowPublish[self.addr][k]
@@ -700,14 +716,6 @@ class MQTTProtocol(MQTTBaseProtocol):
         self._cancelAlarms()
         # Then, invoke errbacks anyway if we do not persist state
         if self._cleanStart:
-            for k in list(self.factory.windowSubscribe[self.addr]):
-                request = self.factory.windowSubscribe[self.addr][k]
-                del self.factory.windowSubscribe[self.addr][k]
-                request.deferred.errback(reason)
-            for k in list(self.factory.windowUnsubscribe[self.addr]):
-                request = self.factory.windowUnsubscribe[self.addr][k]
-                del self.factory.windowUnsubscribe[self.addr][k]
-                request.deferred.errback(reason)
             self._purgeSession(reason)
 
 __all__ = [ "MQTTProtocol" ]
